@@ -559,6 +559,12 @@ func (c *Client) Quit() error {
 
 	_, _, err := c.cmd(221, "QUIT")
 	if err != nil {
+		// The server did not acknowledge the QUIT (error reply or broken connection). We are done
+		// with the connection anyway, so do not leak it.
+		c.mutex.Lock()
+		_ = c.Text.Close()
+		c.isConnected = false
+		c.mutex.Unlock()
 		return err
 	}
 	c.mutex.Lock()
